@@ -1,5 +1,5 @@
 """Which bundles / engines decide which property (the fixed properties are in /verif/properties.jsonl)."""
-from . import attack, hashl, evaluation, draw, rules, targets, succ, castle, top
+from . import attack, hashl, evaluation, draw, rules, targets, succ, castle, top, ucimove
 
 WL_ATTACK = ['external_body:axiom_i8_add_assign_ref', 'assume_specification:i8::abs']
 TB_COMMON = [
@@ -34,6 +34,15 @@ def b_targets(g):
 
 
 WL_MOVEGEN = WL_ATTACK + ['external_body:axiom_boardstate_clone']
+WL_UCI = WL_MOVEGEN + ['assume_specification:str::contains::<P>', 'external_body:__verif_char_at', 'external_body:__verif_square_at']
+
+
+def b_uci(g):
+    b_targets(g); ucimove.build(g)
+
+
+UCI = {'name': 'uci', 'build': b_uci, 'rlimit': 60, 'rlimits': {'make_move': 400},
+       'units_filter': lambda u: u in ('make_move', 'Square::from', 'lemma_castle_shape', 'lemma_key_component', 'lemma_placement_update', 'lemma_xor_swap', 'placement_hash', 'lemma_mul_unit')}
 MOVEGEN = {'name': 'movegen', 'build': b_targets, 'rlimit': 60,
            'rlimits': {'generate_moves_for_piece': 400, 'generate_castling_moves': 300},
            'canary_quick': ['is_check', 'is_check_cords', 'get_moves', 'promote_pawn', 'pawn_moves_en_passant', 'knight_moves', 'generate_moves']}
@@ -49,6 +58,15 @@ KANI_C09 = K.make_engine({'time_control.rs': 'time_control_harness.rs'},
                            'what': '|slice*mtg*10 - 8*(clock-100)| <= 10*mtg, i.e. within 1 ms of 0.8*(clock-100)/mtg; independent of the other side'}])
 KANI_C15 = K.make_engine({'board.rs': 'board_harness.rs'}, [],
                          [{'name': 'c15_point_from_str_total_and_faithful', 'timeout': 1800, 'what': 'Point::from_str on every valid-UTF-8 byte string of length <= 4: no panic, Ok exactly for [a-h][1-8], decoded square correct'}])
+
+KANI_C04 = K.make_engine({'uci.rs': 'uci_harness.rs'}, [],
+                         [{'name': 'c04_text_squares', 'timeout': 3000, 'what': 'for all 20480 UCI move strings: (s[0..2]).parse::<Point>() and (s[2..4]).parse::<Point>() give the squares the string spells (text_facts conjuncts 1-2)'},
+                          {'name': 'c04_text_len_and_letter', 'timeout': 3000, 'what': 'len == 5 <=> promotion; chars().nth(4) is the promotion letter (text_facts conjuncts 3-4)'},
+                          {'name': 'c04_text_corner_a8', 'timeout': 3000, 'what': 'str::contains("a8") <=> the move starts or ends on a8 (text_facts corner conjunct)'},
+                          {'name': 'c04_text_corner_h8', 'timeout': 3000, 'what': 'str::contains("h8") <=> the move starts or ends on h8 (text_facts corner conjunct)'},
+                          {'name': 'c04_text_corner_a1', 'timeout': 3000, 'what': 'str::contains("a1") <=> the move starts or ends on a1 (text_facts corner conjunct)'},
+                          {'name': 'c04_text_corner_h1', 'timeout': 3000, 'what': 'str::contains("h1") <=> the move starts or ends on h1 (text_facts corner conjunct)'},
+                          {'name': 'c04_text_castle_strings', 'timeout': 3000, 'what': 'equality with the four castling strings (text_facts conjuncts 9-12)'}])
 
 PROPS = {
     'C09': {
@@ -73,6 +91,12 @@ PROPS = {
         'whitelist': WL_MOVEGEN, 'trusted_base': TB_COMMON, 'dropped': DROPPED_COMMON,
         'explanation': 'wip', 'assumptions': [], 'not_decided': [],
     },
+    'C04': {
+        'verus': [UCI],
+        'engines': [{'run': KANI_C04}, {'run': H.make_bounded_engine('play_out_position glue and make_move on real text: for every oracle-legal move of each position make_move(text) gives the position/key the rules give; every generated successor printed and replayed reproduces itself; whole `position ... moves ...` commands replayed', 'seeded random: curated + random legal positions, random walks, random games up to 24 moves', 15, 300)}],
+        'whitelist': WL_UCI, 'trusted_base': TB_COMMON, 'dropped': DROPPED_COMMON,
+        'explanation': 'wip', 'assumptions': [], 'not_decided': [],
+    },
     'C02': {
         'verus': [MOVEGEN],
         'whitelist': WL_MOVEGEN, 'trusted_base': TB_COMMON, 'dropped': DROPPED_COMMON,
@@ -85,6 +109,7 @@ PROPS = {
     },
     'C10': {
         'verus': [{'name': 'draw', 'build': b_draw, 'rlimit': 30}],
+        'engines': [{'run': H.make_bounded_engine('position handler: after clear + play_out_position the repetition record holds exactly the occurrence count of every position of the described game (start included) and nothing else; final board and key as the rules give', 'seeded random games: startpos or curated/random FEN, up to 24 oracle-legal moves biased towards repetitions', 8, 180)}],
         'whitelist': WL_ATTACK,
         'trusted_base': TB_COMMON + ["vstd's model of std::collections::HashMap (u64 keys obey the key model)"],
         'dropped': DROPPED_COMMON + ['DrawTable::remove_board_from_draw_table (Some(&val) pattern unsupported by Verus)'],
@@ -102,8 +127,9 @@ PROPS = {
         'not_decided': [],
     },
     'C05': {
-        'verus': [{'name': 'hash', 'build': b_hash, 'rlimit': 30}, MOVEGEN],
-        'whitelist': WL_MOVEGEN,
+        'verus': [{'name': 'hash', 'build': b_hash, 'rlimit': 30}, MOVEGEN, dict(UCI, units_filter=lambda u: u in ('make_move', 'Square::from'))],
+        'engines': [{'run': H.make_bounded_engine('routes: every successor of generate_moves (both modes, also from engine-produced parents) and every make_move result has key == from-scratch key; from_fen of oracle-generated FENs gives the from-scratch key', 'seeded random: curated + random legal positions and random walks', 12, 240)}],
+        'whitelist': WL_UCI,
         'trusted_base': TB_COMMON,
         'dropped': DROPPED_COMMON,
         'explanation': 'key_ok as representation invariant',
